@@ -142,10 +142,17 @@ def _dag(rng, n, shape):
     return edges
 
 
-def gen(seed, profile='general'):
-    """Return a scenario dict.  ``seed`` is any hashable printable value."""
-    rng = random.Random('scen/%s/%s' % (profile, seed))
-    P = PROFILES.get(profile, {})
+BIG = {'nm': {3: 10, 4: 20, 5: 25, 6: 20, 8: 25}, 'nobs': {2: 15, 3: 30, 4: 30, 5: 25},
+       'ntasks': {3: 10, 4: 15, 5: 15, 6: 20, 8: 20, 10: 10, 12: 10}}
+
+
+def gen(seed, profile='general', big=False):
+    """Return a scenario dict.  ``seed`` is any hashable printable value.
+    ``big``: larger clusters / plans / workflows (thorough tier)."""
+    rng = random.Random('scen/%s/%s%s' % (profile, seed, '/big' if big else ''))
+    P = dict(PROFILES.get(profile, {}))
+    if big:
+        P.update(BIG)
 
     def pick(key, default):
         w = P.get(key, default)
